@@ -732,7 +732,14 @@ def _(p):
         F = Formula(f)
         want = F._map(lambda part: [repr(t) for t in part.differentiate(*wrt)])._to_dict()
         got = F.differentiate(*wrt)._map(lambda part: [repr(t) for t in part])._to_dict()
-        return None if got == want else f"derivative-routes-differ: d/d{wrt} of {f!r}: StructuredFormula.differentiate gives {got}, differentiating each part gives {want}"
+        if got != want:
+            return f"derivative-routes-differ: d/d{wrt} of {f!r}: StructuredFormula.differentiate gives {got}, differentiating each part gives {want}"
+        df = pandas.DataFrame({c: [float(i + 1 + 2 * k) for i in range(4)] for k, c in enumerate("yabc")})
+        for how, specs in (("fresh", ModelSpec.from_spec(F)), ("materialized", model_matrix(f, df).model_spec)):
+            got = specs.differentiate(*wrt)._map(lambda sp: [repr(t) for t in sp.formula])._to_dict()
+            if got != want:
+                return f"derivative-routes-differ: d/d{wrt} of {f!r}: ModelSpecs.differentiate ({how}) gives {got}, differentiating each part gives {want}"
+        return None
     cols = sorted({str(v).split(".")[0] for v in Formula(f).required_variables} | {w for w in wrt})
     import re
 
